@@ -1116,10 +1116,13 @@ PROPS = {
         "assumptions": ["UnkCovered (finding F9) and the 65536-nodes-per-boundary bound (F15) are hypotheses of the theorems"],
     },
     "C04": {
-        "modules": ["Vibrato.Props.C04"],
+        "modules": ["Vibrato.Props.C04", "Vibrato.Props.C04n"],
         "theorems": ["Vibrato.reset_then_tokenize_fresh", "Vibrato.history_independent", "Vibrato.tokenize_idempotent",
                      "Vibrato.tokenize_twice_doubles", "Vibrato.interleave_independent",
-                     "Vibrato.buildLattice_buffer_indep"],
+                     "Vibrato.buildLattice_buffer_indep",
+                     # any number of workers, any interleaving, outputs included; and the converse (Props/C04n.lean)
+                     "Vibrato.interleave_independent_n", "Vibrato.interleave_complete_n", "Vibrato.runSysN_length",
+                     "Vibrato.concurrent_worker_reads_fresh"],
         "streams": with_cli(c04_streams, {}, ("tokenize-output-detail",), 12, 400),
         "pre_checks": audit_shared_state,
         "rule": "random worker histories (reset incl. empty and shorter-after-longer sentences, repeated tokenize, "
